@@ -1,1 +1,85 @@
-// harnesses for cell (included into loom under cfg(loom_verif))
+// crate::rt::cell::verif -- C04: race predicates of UnsafeCell tracking on
+// fully symbolic vector clocks.
+#![allow(dead_code, unused_imports)]
+
+use super::*;
+use crate::rt::thread::verif as tv;
+use crate::rt::verif::{le, max_raw, panics_iff, vharness, vv, vv_raw};
+#[cfg(not(kani))]
+use crate::rt::verif::kani_shim as kani;
+use crate::rt::MAX_THREADS;
+
+fn mk_state(read: [u16; MAX_THREADS], write: [u16; MAX_THREADS]) -> State {
+    State {
+        created_location: Location::disabled(),
+        is_reading: 0,
+        is_writing: false,
+        read_access: vv(read),
+        read_locations: LocationSet::new(),
+        write_access: vv(write),
+        write_locations: LocationSet::new(),
+    }
+}
+
+fn read_case(active: usize) {
+    let mut set = tv::mk_set(3);
+    tv::activate(&mut set, active);
+    let cur: [u16; MAX_THREADS] = kani::any();
+    let read: [u16; MAX_THREADS] = kani::any();
+    let write: [u16; MAX_THREADS] = kani::any();
+    tv::th(&mut set, active).causality = vv(cur);
+    let mut st = mk_state(read, write);
+    // reference: a read races with the recorded writes unless they all
+    // happen-before the reader
+    let must = !le(&write, &cur);
+    kani::cover!(must, "racing read");
+    kani::cover!(!must && !le(&read, &cur), "ordered after writes, concurrent with other reads");
+    if panics_iff(must, || st.track_read(&set)).is_some() {
+        assert!(vv_raw(&st.read_access) == max_raw(&read, &cur));
+        assert!(vv_raw(&st.write_access) == write);
+    }
+    std::mem::forget(set);
+}
+
+fn write_case(active: usize) {
+    let mut set = tv::mk_set(3);
+    tv::activate(&mut set, active);
+    let cur: [u16; MAX_THREADS] = kani::any();
+    let read: [u16; MAX_THREADS] = kani::any();
+    let write: [u16; MAX_THREADS] = kani::any();
+    tv::th(&mut set, active).causality = vv(cur);
+    let mut st = mk_state(read, write);
+    let must = !le(&write, &cur) || !le(&read, &cur);
+    kani::cover!(!le(&write, &cur) && le(&read, &cur), "write/write race only");
+    kani::cover!(le(&write, &cur) && !le(&read, &cur), "read/write race only");
+    kani::cover!(!must, "ordered write");
+    if panics_iff(must, || st.track_write(&set)).is_some() {
+        assert!(vv_raw(&st.write_access) == max_raw(&write, &cur));
+        assert!(vv_raw(&st.read_access) == read);
+    }
+    std::mem::forget(set);
+}
+
+vharness! {
+    /// @prop C04 @tier quick @mode full @funcs cell::State::track_read,VersionVec::ahead,VersionVec::join @bounds all clock values (3 x 5 x u16), active thread 0
+    /// track_read panics iff the recorded writes are not all happens-before the reader; on return read_access is the join.
+    fn cell_track_read_iff_t0() { read_case(0) }
+}
+
+vharness! {
+    /// @prop C04 @tier quick @mode full @funcs cell::State::track_read @bounds all clock values, active thread 2
+    /// same as cell_track_read_iff_t0 with a non-initial active thread.
+    fn cell_track_read_iff_t2() { read_case(2) }
+}
+
+vharness! {
+    /// @prop C04 @tier quick @mode full @funcs cell::State::track_write,VersionVec::ahead,VersionVec::join @bounds all clock values (3 x 5 x u16), active thread 0
+    /// track_write panics iff some recorded read or write is not happens-before the writer; on return write_access is the join.
+    fn cell_track_write_iff_t0() { write_case(0) }
+}
+
+vharness! {
+    /// @prop C04 @tier quick @mode full @funcs cell::State::track_write @bounds all clock values, active thread 1
+    /// same as cell_track_write_iff_t0 with a non-initial active thread.
+    fn cell_track_write_iff_t1() { write_case(1) }
+}
